@@ -30,6 +30,7 @@ import (
 	lavarand "github.com/lavanet/lava/v5/utils/rand"
 	pairingtypes "github.com/lavanet/lava/v5/x/pairing/types"
 	"google.golang.org/grpc"
+	"google.golang.org/grpc/connectivity"
 	"google.golang.org/grpc/credentials"
 )
 
@@ -92,6 +93,8 @@ func startInfra() error {
 	// wait until the stub accepts connections
 	probe := &lavasession.ConsumerSessionsWithProvider{}
 	for i := 0; ; i++ {
+		// ConnectRawClientWithTimeout gives up after 1.5 s by itself; on a busy machine the first TLS
+		// handshake can take longer, so keep trying for a while
 		ctx, cancel := context.WithTimeout(context.Background(), 5*time.Second)
 		_, conn, err := probe.ConnectRawClientWithTimeout(ctx, stubAddr)
 		cancel()
@@ -99,13 +102,14 @@ func startInfra() error {
 			_ = conn.Close()
 			return nil
 		}
-		if i > 20 {
+		if i > 120 {
 			return fmt.Errorf("stub not reachable: %w", err)
 		}
 	}
 }
 
 func stopInfra() {
+	drainConnPool()
 	if stubServer != nil {
 		stubServer.Stop()
 	}
@@ -235,6 +239,7 @@ type provObj struct {
 	spec  provSpec
 	cswp  *lavasession.ConsumerSessionsWithProvider
 	epoch uint64
+	conn  *grpc.ClientConn
 }
 
 type world struct {
@@ -253,9 +258,69 @@ func newWorld() *world {
 	return &world{csm: csm, opt: opt, errCh: make(chan error, 64)}
 }
 
-// buildList creates fresh provider entries (one endpoint each, pointing at the loopback stub) and
-// connects them the way the provider probe would, so that GetSessions finds live connections.
+// ---- connections: dialed with the manager's own ConnectGRPCClient (TLS, blocking), pooled per process.
+// A pairing list shares one connection; a finished case returns it to the pool unless the manager
+// closed it (it closes the connections of the list it purges two epochs later).
+
+var connPool = make(chan *grpc.ClientConn, 64)
+
+func getConn() (*grpc.ClientConn, error) {
+	for {
+		select {
+		case c := <-connPool:
+			if st := c.GetState(); st == connectivity.Ready || st == connectivity.Idle {
+				return c, nil
+			}
+			_ = c.Close()
+			continue
+		default:
+		}
+		break
+	}
+	var lastErr error
+	for attempt := 0; attempt < 3; attempt++ {
+		ctx, cancel := context.WithTimeout(context.Background(), 10*time.Second)
+		c, err := lavasession.ConnectGRPCClient(ctx, stubAddr, true, false, false)
+		cancel()
+		if err == nil {
+			return c, nil
+		}
+		lastErr = err
+	}
+	return nil, lastErr
+}
+
+func putConn(c *grpc.ClientConn) {
+	if st := c.GetState(); st != connectivity.Ready && st != connectivity.Idle {
+		_ = c.Close()
+		return
+	}
+	select {
+	case connPool <- c:
+	default:
+		_ = c.Close()
+	}
+}
+
+func drainConnPool() {
+	for {
+		select {
+		case c := <-connPool:
+			_ = c.Close()
+		default:
+			return
+		}
+	}
+}
+
+// buildList creates fresh provider entries (one endpoint each, pointing at the loopback stub) in
+// the state they have after the provider probe connected them, so that GetSessions finds live
+// connections.
 func buildList(epoch uint64, specs []provSpec) ([]*provObj, error) {
+	conn, err := getConn()
+	if err != nil {
+		return nil, err
+	}
 	objs := make([]*provObj, len(specs))
 	for i, sp := range specs {
 		ep := &lavasession.Endpoint{NetworkAddress: stubAddr, Enabled: true, Connections: []*lavasession.EndpointConnection{},
@@ -267,34 +332,8 @@ func buildList(epoch uint64, specs []provSpec) ([]*provObj, error) {
 			ep.Extensions[e] = struct{}{}
 		}
 		cswp := lavasession.NewConsumerSessionWithProvider(sp.Addr, []*lavasession.Endpoint{ep}, sp.MaxCU, epoch, sdk.NewInt64Coin("ulava", int64(10+i)))
-		objs[i] = &provObj{spec: sp, cswp: cswp, epoch: epoch}
-	}
-	var wg sync.WaitGroup
-	errs := make([]error, len(objs))
-	for i := range objs {
-		wg.Add(1)
-		go func(i int) {
-			defer wg.Done()
-			for attempt := 0; attempt < 3; attempt++ {
-				ctx, cancel := context.WithTimeout(context.Background(), 10*time.Second)
-				n, err := objs[i].cswp.VerifConsumerConnect(ctx)
-				cancel()
-				if err == nil && n == 1 {
-					errs[i] = nil
-					return
-				}
-				errs[i] = fmt.Errorf("connect %s: n=%d err=%v", objs[i].spec.Addr, n, err)
-			}
-		}(i)
-	}
-	wg.Wait()
-	for _, e := range errs {
-		if e != nil {
-			for _, o := range objs {
-				o.cswp.VerifConsumerShutdown()
-			}
-			return nil, e
-		}
+		cswp.VerifConsumerAttachConnection(conn)
+		objs[i] = &provObj{spec: sp, cswp: cswp, epoch: epoch, conn: conn}
 	}
 	return objs, nil
 }
@@ -340,7 +379,10 @@ func (w *world) updateErrors() (errs []error) {
 func (w *world) shutdown() {
 	for _, l := range w.lists {
 		for _, o := range l {
-			o.cswp.VerifConsumerShutdown()
+			o.cswp.VerifConsumerDisableEndpoints()
+		}
+		if len(l) > 0 {
+			putConn(l[0].conn)
 		}
 	}
 }
@@ -386,21 +428,29 @@ type ledger struct {
 	order   []*provRec
 	sess    map[*lavasession.SingleConsumerSession]*sessRec
 	pending map[int]uint64 // worker -> cu of the GetSessions call it is executing
+	pendVE  map[int]uint64 // worker -> virtual epoch of that call
 	viol    []string
+	abort   atomic.Bool // set when a session was handed out twice: workers stop, nobody frees the shared session again
 	seq     atomic.Int64
 	// evidence
 	nAcq, nReuse, nIntervalChecks, nExactChecks int
 }
 
 func newLedger() *ledger {
-	return &ledger{provs: map[*lavasession.ConsumerSessionsWithProvider]*provRec{}, sess: map[*lavasession.SingleConsumerSession]*sessRec{}, pending: map[int]uint64{}}
+	return &ledger{provs: map[*lavasession.ConsumerSessionsWithProvider]*provRec{}, sess: map[*lavasession.SingleConsumerSession]*sessRec{}, pending: map[int]uint64{}, pendVE: map[int]uint64{}}
 }
 
 func (l *ledger) addList(objs []*provObj) {
 	l.mu.Lock()
 	defer l.mu.Unlock()
+	var ve uint64 // a call that is executing right now may reach the new list with its own virtual epoch
+	for _, v := range l.pendVE {
+		if v > ve {
+			ve = v
+		}
+	}
 	for _, o := range objs {
-		r := &provRec{obj: o}
+		r := &provRec{obj: o, maxVE: ve}
 		l.provs[o.cswp] = r
 		l.order = append(l.order, r)
 	}
@@ -423,6 +473,7 @@ func (l *ledger) beginAcquire(w int, cu, ve uint64) {
 	l.mu.Lock()
 	defer l.mu.Unlock()
 	l.pending[w] = cu
+	l.pendVE[w] = ve
 	for _, r := range l.order {
 		if ve > r.maxVE {
 			r.maxVE = ve
@@ -435,6 +486,7 @@ func (l *ledger) endAcquire(w int, cu uint64, res lavasession.ConsumerSessionsMa
 	l.mu.Lock()
 	defer l.mu.Unlock()
 	delete(l.pending, w)
+	delete(l.pendVE, w)
 	addrs := make([]string, 0, len(res))
 	for a := range res {
 		addrs = append(addrs, a)
@@ -468,6 +520,10 @@ func (l *ledger) endAcquire(w int, cu uint64, res lavasession.ConsumerSessionsMa
 		// exclusivity
 		if rec.holder != -1 || seen[s] {
 			l.violf("session %d of provider %s (epoch %d) was handed to worker %d while worker %d still holds it", s.SessionId, a, pr.obj.epoch, w, rec.holder)
+			// the second holder neither uses nor frees it (a second Free would unlock an unlocked mutex and
+			// kill the process before the violation is reported)
+			l.abort.Store(true)
+			continue
 		}
 		seen[s] = true
 		// the holder owns the session lock, so reading the plain fields is race free on correct code
